@@ -30,7 +30,8 @@ Definition level_pair_ok (L old new : Z) : bool :=
 Definition named_pairs (old new : pl_content) : list (Z * Z) :=
   [ (pl_ban old, pl_ban new); (pl_invite old, pl_invite new); (pl_kick old, pl_kick new);
     (pl_redact old, pl_redact new); (pl_state_default old, pl_state_default new);
-    (pl_events_default old, pl_events_default new) ].
+    (pl_events_default old, pl_events_default new);
+    (pl_users_default old, pl_users_default new) ].
 
 Definition event_pairs (old new : pl_content) : list (Z * Z) :=
   map (fun ty => (pl_event_level old ty false, pl_event_level new ty false))
@@ -41,7 +42,7 @@ Definition check_event_levels (L : Z) (old new : pl_content) : bool :=
 
 (* one entry of checkPowerLevelEventV2 *)
 Definition notif_pair_ok (L old new : Z) : bool :=
-  (old =? new) || ((new <=? L) && (old <? L)).
+  (old =? new) || ((new <=? L) && (old <=? L)).
 
 Definition check_notif_levels (L : Z) (old new : pl_content) : bool :=
   forallb (fun n => notif_pair_ok L (pl_notif_level old n) (pl_notif_level new n))
@@ -156,13 +157,16 @@ Definition decide_power_levels (a : auth_input) : verdict :=
           let old := ai_pl a in
           let L := user_power_level (ai_flags a) c (ai_pl_present a) old (ai_sender a) in
           if negb (check_event_levels L old new) then VNotAllowed else
+          (* the notification check works out the sender's level on its own: from the users map,
+             and in versions with privileged creators at the creator level for creators *)
           let L2 := pl_user_level old (ai_sender a) in
+          let L3 := if mem_bytes (ai_sender a) (creators_of c) then creator_level else L2 in
           let users_ok := if check_user_levels L (ai_sender a) old new then VOk else VNotAllowed in
           match vf_pl_check (ai_flags a) with
           | PlV1 => users_ok
           | PlV2 => if negb (check_notif_levels L2 old new) then VNotAllowed else users_ok
           | PlV3 =>
-              if negb (check_notif_levels L2 old new) then VNotAllowed
+              if negb (check_notif_levels L3 old new) then VNotAllowed
               else if existsb (fun u => mem_bytes u (creators_of c)) (map fst (pl_users new)) then VErr
               else users_ok
           end
